@@ -139,6 +139,30 @@ Definition ltx_wal_pgnos (x : sx) : sx :=
   let ps := asN (nthx 0 x) in
   sx_ranges (to_ranges (wal_pgnos (lockPgno ps) (asN (nthx 1 x)) (asN (nthx 2 x)) (asNs (nthx 3 x)))).
 
+(** the REAL writeLTXFromWAL (hook WriteLTXFromWALVerif) feeding a real encoder of
+    a non-snapshot file: input [ps; prevCommit; commit; keys of the page map];
+    output [status; emitted page numbers as runs] — status 0, or the class of the
+    encoder's first rejection (then no runs) *)
+Definition ltx_wal_encode (x : sx) : sx :=
+  let lock := lockPgno (asN (nthx 0 x)) in
+  let commit := asN (nthx 2 x) in
+  let l := wal_pgnos lock (asN (nthx 1 x)) commit (asNs (nthx 3 x)) in
+  match enc_run false lock commit 0 l with
+  | None => SL [sxN 0; sx_ranges (to_ranges l)]
+  | Some e => SL [sxN (enc_err_code e); SL []]
+  end.
+
+(** the REAL writeLTXFromDB (hook WriteLTXFromDBVerif): input [snapshot?; ps; commit];
+    output [status; runs] *)
+Definition ltx_db_encode (x : sx) : sx :=
+  let lock := lockPgno (asN (nthx 1 x)) in
+  let commit := asN (nthx 2 x) in
+  let l := db_pgnos lock commit in
+  match enc_run (asB (nthx 0 x)) lock commit 0 l with
+  | None => SL [sxN 0; sx_ranges (to_ranges l)]
+  | Some e => SL [sxN (enc_err_code e); SL []]
+  end.
+
 (** input [snapshot?; ps; commit; prev; pgnos as runs]; output the encoder's verdict on
     the sequence: 0 accepted, else the error class of the first rejected page *)
 Definition ltx_enc_run (x : sx) : sx :=
